@@ -588,7 +588,25 @@ func findLoops(fn *ssa.Function) map[*ssa.BasicBlock]*loopInfo {
 	for h := range loops {
 		hs = append(hs, h)
 	}
-	sort.Slice(hs, func(i, j int) bool { return hs[i].Index < hs[j].Index })
+	// ordinals follow source order: smallest source position found in the loop
+	minPos := func(h *ssa.BasicBlock) token.Pos {
+		var m token.Pos
+		for b := range loops[h].body {
+			for _, in := range b.Instrs {
+				if p := in.Pos(); p.IsValid() && (m == 0 || p < m) {
+					m = p
+				}
+			}
+		}
+		return m
+	}
+	sort.Slice(hs, func(i, j int) bool {
+		pi, pj := minPos(hs[i]), minPos(hs[j])
+		if pi != pj {
+			return pi < pj
+		}
+		return hs[i].Index < hs[j].Index
+	})
 	for i, h := range hs {
 		loops[h].index = i
 	}
